@@ -275,6 +275,13 @@ func evalC09(c c09Case) *Failure {
 			if callsFor(pre) != 0 {
 				return failf("c09|executed-before-auth", "%s: %s: GET was executed on a TLS connection before AUTH", what, when)
 			}
+			// the certificate does not replace the password: a wrong one is refused, nothing runs after it
+			send("AUTH", "not-"+password)
+			wrongpw := uniq("wrongpw")
+			send("GET", wrongpw)
+			if callsFor(wrongpw) != 0 {
+				return failf("c09|executed-after-wrong-password", "%s: %s: a TLS client with an acceptable certificate had a command executed after AUTH with a wrong password (replies %v)", what, when, replies)
+			}
 			send("AUTH", password)
 		} else if password != "" {
 			send("AUTH", password)
@@ -449,6 +456,12 @@ func evalC09Reconfig(c c09Reconfig) *Failure {
 			srv.CACerts, ca = p.Foreign.CertPEM, "foreign"
 		case "ca=root":
 			srv.CACerts, ca = p.Root.CertPEM, "root"
+		case "remove-unregistered":
+			// the application removes an authenticator that is not (or no longer) registered - a no-op
+			// (through an interface: trees before the repair beae9e9 do not have the method, and this package must build against them too)
+			if r, ok := interface{}(srv.AuthManager).(interface{ RemoveAuthenticator(auth.Authenticator) }); ok {
+				r.RemoveAuthenticator(auth.NewCertificateAuthenticatorWith(auth.WithCommonName("never-registered")))
+			}
 		default:
 			if strings.HasPrefix(st, "pass=") {
 				password = strings.TrimPrefix(st, "pass=")
@@ -732,13 +745,13 @@ product:
 		k := 0
 		for _, rule := range []bool{false, true} {
 			for _, how := range []string{"restart", "stopstart"} {
-				for si, steps := range [][]string{{"ca=foreign"}, {"ca=foreign", "ca=root"}, {"ca=root", "ca=foreign"}, {"pass=second"}, {"pass=second", "pass=third"}, {"pass=second", "ca=foreign"}} {
+				for si, steps := range [][]string{{"ca=foreign"}, {"ca=foreign", "ca=root"}, {"ca=root", "ca=foreign"}, {"pass=second"}, {"pass=second", "pass=third"}, {"pass=second", "ca=foreign"}, {"remove-unregistered"}, {"remove-unregistered", "remove-unregistered", "ca=foreign"}} {
 					k++
 					if k%h.NShards != h.Shard {
 						continue
 					}
 					c := c09Reconfig{Rule: rule, Steps: steps, How: how}
-					if si >= 3 {
+					if si >= 3 && si <= 5 {
 						c.Password = "first"
 					}
 					h.Col.Case(true, []byte("reconfig "+c.describe()), "ca-replaced-at-run-time")
